@@ -209,6 +209,11 @@ def api_case(s, pos, idx):
         b.append({"op": "set_value", "cont": "h", "name": "_l", "v": {"k": "list", "e": [{"k": "numb", "t": "1"}, v, {"k": "list", "e": [v]}]}})
     elif pos == "table":
         b.append({"op": "set_value", "cont": "h", "name": "_t", "v": {"k": "table", "e": [["k", v], ["m", {"k": "table", "e": [["n", v]]}]]}})
+    elif pos in ("looplist", "looptable"):
+        # a composite value inside a loop packet (item names are then written by the loop header, not with the value)
+        comp = {"k": "list", "e": [v]} if pos == "looplist" else {"k": "table", "e": [["k", v]]}
+        b += [{"op": "create_loop", "cont": "h", "category": "k", "names": ["_a", "_b"], "h": "l"},
+              {"op": "loop_add_packet", "loop": "l", "packet": [["_a", {"k": "numb", "t": "1"}], ["_b", comp]]}]
     elif pos == "key":
         b.append({"op": "set_value", "cont": "h", "name": "_t", "v": {"k": "table", "e": [[s, {"k": "numb", "t": "1"}], ["z", {"k": "unk"}]]}})
     elif pos == "unquoted":
@@ -242,7 +247,7 @@ def run_roundtrip(prop, ver, tier):
         cases.append(("doc%d %s %s" % (i, o["ctx"], "+".join("%s/%s" % (s["v"], s["p"]) for s in o["slots"])), [{"op": "parse", "cif": "c", "text": render(o["d"]["doc"]), "errors": "accept"}]))
     # (b) descriptor strings placed through the API
     strs = descriptor_strings(tier, rnd)
-    positions = ["scalar", "loop", "list", "table", "key", "unquoted", "frame"] if ver == 2 else ["scalar", "loop", "unquoted", "frame", "list"]
+    positions = ["scalar", "loop", "list", "table", "key", "unquoted", "frame", "looplist", "looptable"] if ver == 2 else ["scalar", "loop", "unquoted", "frame", "list", "looplist", "looptable"]
     for i, s in enumerate(strs):
         for pos in (positions if (tier != "quick" or s in HARDFOLD) else [positions[i % len(positions)], positions[(i * 3 + 1) % len(positions)]]):
             if pos == "unquoted" and not ("bare" in py_adm(s)[0] or s in ("?", ".")):
